@@ -74,6 +74,8 @@ class Cloner:
         self._post_process = post_process
         self._resolve_ref_attrs = resolve_ref_attrs
         self._allow_outer_scope_values = allow_outer_scope_values
+        # Every node created so far, so that a failed clone can detach them again
+        self._cloned_nodes: list[_core.Node] = []
 
     @_capture_error_context
     def _get_value(self, value: _core.Value) -> _core.Value | None:
@@ -204,6 +206,7 @@ class Cloner:
             metadata_props=new_metadata,
             device_configurations=node.device_configurations,
         )
+        self._cloned_nodes.append(new_node)
         if node.meta:
             self.clone_meta(node.meta, new_node.meta, deep_copy=deep_copy)
 
@@ -266,6 +269,19 @@ class Cloner:
         self, graph: _core.Graph | _core.GraphView, deep_copy: bool = False
     ) -> _core.Graph:
         """Clones a graph with shared TensorProtocols."""
+        try:
+            return self._clone_graph(graph, deep_copy=deep_copy)
+        except Exception:
+            # The nodes built so far are discarded. They must not stay behind as users of the
+            # values they read (outer-scope values of the original graph when those are allowed).
+            for cloned_node in self._cloned_nodes:
+                for i in range(len(cloned_node.inputs)):
+                    cloned_node.replace_input_with(i, None)
+            raise
+
+    def _clone_graph(
+        self, graph: _core.Graph | _core.GraphView, deep_copy: bool = False
+    ) -> _core.Graph:
         input_values = [self._clone_or_get_value(v, deep_copy=deep_copy) for v in graph.inputs]
         initializers = [
             self._clone_or_get_value(v, deep_copy=deep_copy)
